@@ -45,15 +45,18 @@ func H_Conc() {
 	maxOps := vrt.Param("ops", 1)
 	l0 := []int{kit.LSingleton, kit.LScoped, kit.LTransient}[vrt.Pick("life0", 0, 2)]
 	l1 := []int{kit.LSingleton, kit.LScoped, kit.LTransient}[vrt.Pick("life1", 1, 2)]
-	w := &kit.World{N: 2}
+	l2 := []int{kit.LScoped, kit.LTransient}[vrt.Pick("life2", 0, 1)]
+	w := &kit.World{N: 3}
 	w.Order = [kit.NS]int{0, 1, 2, 3}
-	// registration 0 (disposable S0) takes registration 1 (disposable S1) as a parameter
-	w.Regs[0] = kit.Reg{Present: true, Life: l0, Form: kit.IdPlain, Variant: 1}
+	// registration 0 (disposable S0) takes registrations 1 and 2 as parameters, so
+	// that a user callback runs between the resolution of its two arguments
+	w.Regs[0] = kit.Reg{Present: true, Life: l0, Form: kit.IdPlain, Variant: 2}
 	w.Regs[1] = kit.Reg{Present: true, Life: l1, Form: kit.IdPlain, Variant: 0}
+	w.Regs[2] = kit.Reg{Present: true, Life: l2, Form: kit.IdPlain, Variant: 0}
 	vrt.Assume(buildable(w))
 	c := godi.NewCollection()
 	errs := w.Register(c)
-	vrt.Assume(!addErrs(errs, 2))
+	vrt.Assume(!addErrs(errs, 3))
 	p, err := c.Build()
 	vrt.Assume(err == nil)
 	ctx, cancel := context.WithCancel(context.Background())
@@ -77,11 +80,14 @@ func H_Conc() {
 	}
 	// carve-out of the open finding: both goroutines make a first resolution
 	// that constructs the same scoped registration in the same scope
-	touches := func(g int) (sharedMask, childMask int) {
+	touches := func(g int) (sharedMask, childMask, rootMask int) {
 		for _, op := range prog[g] {
 			m := 0
 			switch op {
-			case opResolve0, opResolveChild:
+			case opResolve0, opResolveChild, opResolveRoot:
+				if l2 == kit.LScoped {
+					m |= 4
+				}
 				if l0 == kit.LScoped {
 					m |= 1
 				}
@@ -93,17 +99,20 @@ func H_Conc() {
 					m |= 2
 				}
 			}
-			if op == opResolveChild {
+			switch op {
+			case opResolveChild:
 				childMask |= m
-			} else {
+			case opResolveRoot:
+				rootMask |= m
+			default:
 				sharedMask |= m
 			}
 		}
 		return
 	}
-	sa, ca := touches(0)
-	sb, cb := touches(1)
-	vrt.Finding("KF-C02-concurrent-first-resolution", sa&sb != 0 || ca&cb != 0)
+	sa, ca, ra := touches(0)
+	sb, cb, rb := touches(1)
+	vrt.Finding("KF-C02-concurrent-first-resolution", sa&sb != 0 || ca&cb != 0 || ra&rb != 0)
 
 	var res [2][]*opResult
 	run := func(g int) {
@@ -194,7 +203,46 @@ func H_Conc() {
 			}
 		}
 	}
-	for r := 0; r < 2; r++ {
+	// C09: what a resolution returned is wired with instances of its own scope:
+	// every scoped argument is the instance that scope hands out for it
+	for g := 0; g < 2; g++ {
+		for _, r := range res[g] {
+			if r.err != nil || r.panicked || r.val == nil {
+				continue
+			}
+			var sc godi.Provider
+			switch r.op {
+			case opResolve0, opResolve1:
+				sc = shared
+			case opResolveChild:
+				sc = child
+			case opResolveRoot:
+				sc = p
+			default:
+				continue
+			}
+			in := kit.InfoOf(r.val)
+			if in == nil {
+				continue
+			}
+			vrt.Assert(len(in.Args) == len(kit.Deps[in.Slot][w.Regs[in.Slot].Variant]), "C09.wrong_wiring", "instance of slot", in.Slot, "received", len(in.Args), "arguments")
+			for j, a := range in.Args {
+				if a == nil {
+					vrt.Assert(false, "C09.wrong_wiring", "nil argument under concurrency")
+					continue
+				}
+				want := kit.Deps[in.Slot][w.Regs[in.Slot].Variant][j].Target
+				vrt.Assert(a.Slot == want, "C09.wrong_wiring", "argument", j, "of slot", in.Slot, "is an instance of slot", a.Slot, "instead of", want)
+				if w.Regs[a.Slot].Life == kit.LScoped {
+					cur, err := sc.Get(kit.TypeS[a.Slot])
+					if err == nil {
+						vrt.Assert(kit.InfoOf(cur) == a || w.Regs[in.Slot].Life != kit.LScoped && false, "C09.wrong_wiring", "instance of slot", in.Slot, "resolved in one scope holds the scoped instance of another scope (slot", a.Slot, ")")
+					}
+				}
+			}
+		}
+	}
+	for r := 0; r < 3; r++ {
 		if w.Regs[r].Life == kit.LSingleton {
 			vrt.Assert(kit.Calls[kit.KindCtor][r] == 1, "C01.singleton_constructed_again", "singleton constructor ran", kit.Calls[kit.KindCtor][r], "times")
 		}
